@@ -317,7 +317,7 @@ func genWordRune(t *rapid.T, kind string, first bool) rune {
 		}
 		return r
 	case k == 6 && (kind == "generic" || !first):
-		return rapid.SampledFrom([]rune{0x100, 0x101, 0x4e2d, 0x6587, 0x3b1, 0x44f, 0xfffe, 0xfffd}).Draw(t, "bmpnamed")
+		return rapid.SampledFrom([]rune{0x100, 0x101, 0x4e2d, 0x6587, 0x3b1, 0x44f, 0xfffe, 0xfffd, 0x0663, 0x0967, 0x0e53, 0xff10, 0x2460, 0x0130, 0x212a, 0xfeff, 0x3000, 0x2028}).Draw(t, "bmpnamed")
 	case k == 7 && !first:
 		return rune('0' + rapid.IntRange(0, 9).Draw(t, "digit"))
 	case k == 8 && (!first || kind == "expression"):
@@ -330,6 +330,9 @@ func genWordRune(t *rapid.T, kind string, first bool) rune {
 
 func genDigits(t *rapid.T, min int) string {
 	n := rapid.IntRange(min, 4).Draw(t, "nd")
+	if rapid.IntRange(0, 29).Draw(t, "longd") == 0 {
+		n = rapid.IntRange(15, 200).Draw(t, "longnd")
+	}
 	var sb strings.Builder
 	for i := 0; i < n; i++ {
 		sb.WriteByte(byte('0' + rapid.IntRange(0, 9).Draw(t, "d")))
@@ -339,6 +342,9 @@ func genDigits(t *rapid.T, min int) string {
 
 func genBody(t *rapid.T, forbid func(rs []rune, r rune) bool, maxLen int) string {
 	n := rapid.IntRange(0, maxLen).Draw(t, "bn")
+	if rapid.IntRange(0, 24).Draw(t, "longbody") == 0 {
+		n = rapid.IntRange(60, 700).Draw(t, "longbn") // long literals / comments: chunk sizes of 64, 256, 512 inside one token
+	}
 	var rs []rune
 	for i := 0; i < n; i++ {
 		var r rune
@@ -389,6 +395,9 @@ func genLexeme(t *rapid.T, kind string) lexeme {
 			return lexeme{tokenizers.Comment, "#" + body}
 		case 4: // blank run
 			n := rapid.IntRange(1, 3).Draw(t, "wsn")
+			if rapid.IntRange(0, 14).Draw(t, "longws") == 0 {
+				n = rapid.IntRange(15, 280).Draw(t, "longwsn")
+			}
 			var sb strings.Builder
 			for i := 0; i < n; i++ {
 				sb.WriteRune(rapid.SampledFrom([]rune{' ', ' ', '\t', '\n', '\r', 0, 0x1f}).Draw(t, "ws"))
@@ -466,6 +475,9 @@ func genLexeme(t *rapid.T, kind string) lexeme {
 		return lexeme{tokenizers.Comment, "/*" + body + "*/"}
 	case 6:
 		n := rapid.IntRange(1, 3).Draw(t, "wsn")
+		if rapid.IntRange(0, 14).Draw(t, "longws") == 0 {
+			n = rapid.IntRange(15, 280).Draw(t, "longwsn")
+		}
 		var sb strings.Builder
 		for i := 0; i < n; i++ {
 			sb.WriteRune(rapid.SampledFrom([]rune{' ', ' ', '\t', '\n', '\r'}).Draw(t, "ws"))
@@ -532,6 +544,9 @@ func TestC13_Rapid(t *testing.T) {
 	runRapid(t, pick(40000, 300000), 13, func(rt *rapid.T) {
 		kind := rapid.SampledFrom([]string{"generic", "expression"}).Draw(rt, "tok")
 		n := rapid.IntRange(1, 25).Draw(rt, "n")
+		if rapid.IntRange(0, 19).Draw(rt, "long") == 0 {
+			n = rapid.IntRange(25, 250).Draw(rt, "longn")
+		}
 		var ls []lexeme
 		for i := 0; i < n; i++ {
 			ls = append(ls, genLexeme(rt, kind))
